@@ -44,7 +44,7 @@ def jobs(prop, tier, only_fn=None):
         if scen == 6:
             cm["memchecks"] = False  # 520-element clears under pointer checks exhaust memory; the vswprintf model asserts its buffer
         out.append(Job("%s.C20" % name, "C20", "h_alloc.c", files, defines=["-DSCEN=%d" % scen] + defs, repo_defines=WRAP, models=models,
-                       unwind_default=unw, unwind_rules=[(r"^safec_ntoa", 34), (r"^memcpy\.", 210), (r"^memset\.", 530 if scen == 6 else 30), (r"^(strcat|strlen)\.", 48)], fn=fn, object_bits=obits,
+                       unwind_default=unw, unwind_rules=[(r"^safec_ntoa", 34), (r"^memcpy\.", 210), (r"^memset\.", 530 if scen == 6 else 40), (r"^(strcat|strlen)\.", 48)], fn=fn, object_bits=obits,
                        bounds={"scenario": name, "failing allocations": "any subset of the first 8 requests (symbolic mask)",
                                "inputs": "concrete wide strings (empty, ASCII, multibyte, unconvertible) / concrete operands"}, **cm))
     return out
